@@ -88,11 +88,11 @@ def big_slot(w, slot, code):
     from .world import Slot
     from .build import build_table
     import copy as _copy
-    if code % 16 != 5:
+    if code % 8 != 5:
         return None
     ref = slot.ref
-    ax = (code // 16) % 2
-    n = 513 + (code // 32) % 288
+    ax = (code // 8) % 2
+    n = 513 + (code // 16) % 288
     R = ref.n(ax)
     oax = 1 - ax
     rows = []
@@ -250,6 +250,13 @@ def _cmp_loaded(w, loaded, ref, meta, oracle, what, subset=False):
                        for k in want_txt))
 
 
+def _pathform(path, w):
+    """a path as str or as pathlib.Path (both are paths to the loader)"""
+    import pathlib
+    w.file_counter += 1
+    return pathlib.Path(path) if w.file_counter % 3 == 0 else path
+
+
 @probe('c01_roundtrip')
 def c01_roundtrip(w, ev, slot):
     import h5py
@@ -300,7 +307,7 @@ def c01_roundtrip(w, ev, slot):
         w.case('c01.roundtrip', what, slot)
         try:
             if route == 0:
-                t2 = biom.load_table(path)
+                t2 = biom.load_table(_pathform(path, w))
             elif route == 1:
                 with h5py.File(path, 'r') as f:
                     t2 = biom.parse_table(f)
